@@ -28,7 +28,7 @@ Definition ensure_read (s : sock) (size : Z) := ensure_chunks (s_buf s) (s_chunk
 Inductive pkt :=
   | PktOk (ptype : Z) (payload : list Z)
   | PktErr (e : list Z)          (* (-1, e) *)
-  | PktExit                      (* sys.exit(CONNECTION_ERROR) inside the reader *)
+  | PktExit                      (* SSH_Socket.InvalidPacketException: bad block size / CRC / length (was sys.exit before the fix) *)
   | PktRaise (e : exn).
 
 Definition with_buf (s : sock) (b : list Z) : sock := {| s_buf := b; s_chunks := s_chunks s; s_end := s_end s |}.
@@ -66,6 +66,7 @@ Definition read_packet2 (s : sock) : sock * pkt :=
           else match ensure_read s paylen with
                | (s, Some e) => insufficient s header e
                | (s, None) =>
+                 if paylen <? 1 then (s, PktExit) else
                  let payload := take paylen (s_buf s) in
                  let s := with_buf s (drop paylen (s_buf s)) in
                  let header := header ++ payload in
@@ -102,6 +103,7 @@ Definition read_packet1 (s : sock) : sock * pkt :=
         else match ensure_read s plen with
              | (s, Some e) => insufficient s header e
              | (s, None) =>
+               if plen <? 5 then (s, PktExit) else
                let payload := take (plen - 4) (s_buf s) in
                let rest := drop (plen - 4) (s_buf s) in
                match dec_u32 rest with
